@@ -734,3 +734,182 @@ mod t {
         super::self_test().unwrap();
     }
 }
+
+// ------------------------------------------------------------------ a greedy reference *encoder* (interleaved RLE, 16 bpp)
+
+/// deterministic encoding strategies: which order kinds the encoder may use and which spelling it prefers
+#[derive(Clone, Copy, Debug, PartialEq, Eq, serde::Serialize, serde::Deserialize)]
+pub struct EncStrategy {
+    pub bg: bool,
+    pub fg: bool,
+    pub fgbg: bool,
+    pub color_run: bool,
+    pub dithered: bool,
+    pub special: bool,
+    /// 0: shortest spelling, 1: prefer mega-mega, 2: prefer extended where spellable
+    pub form: u8,
+    /// cap on run lengths (exercises run splitting)
+    pub max_run: u32,
+}
+
+fn pick_form(kind: &Kind, run: u32, pref: u8) -> Option<Form> {
+    let order: [Form; 3] = match pref {
+        1 => [Form::MegaMega, Form::Extended, Form::Short],
+        2 => [Form::Extended, Form::Short, Form::MegaMega],
+        _ => [Form::Short, Form::Extended, Form::MegaMega],
+    };
+    order.iter().find(|f| spellable(kind, f, run)).cloned()
+}
+
+/// Encode a top-down image into a conformant order sequence. Orders whose meaning depends on the scan
+/// line never straddle the end of the first line.
+pub fn encode16(img: &[u16], width: usize, height: usize, st: &EncStrategy) -> Vec<Order> {
+    // pixels in decode order (bottom row first)
+    let mut px: Vec<u16> = Vec::with_capacity(img.len());
+    for row in (0..height).rev() {
+        px.extend_from_slice(&img[row * width..(row + 1) * width]);
+    }
+    let total = px.len();
+    let mut out: Vec<Order> = vec![];
+    let mut pos = 0usize;
+    let mut fg: u16 = 0xffff;
+    let mut last_was_bg = false;
+    while pos < total {
+        let first_line = pos < width;
+        // line-dependent orders may not cross the end of the first line
+        let limit = if first_line { width - pos } else { total - pos };
+        let limit = limit.min(st.max_run as usize).max(1);
+        let above = |i: usize| if i < width { 0u16 } else { px[i - width] };
+        // candidates: (pixels covered, order)
+        let mut best: Option<(usize, Order)> = None;
+        let mut consider = |n: usize, o: Order, best: &mut Option<(usize, Order)>| {
+            if n > 0 && best.as_ref().map(|b| n > b.0).unwrap_or(true) {
+                *best = Some((n, o));
+            }
+        };
+        // background run (never directly after another one unless the first line just ended: the decoder would insert a pel)
+        if st.bg && !(last_was_bg && pos != width) {
+            let mut n = 0;
+            while n < limit && px[pos + n] == above(pos + n) {
+                n += 1;
+            }
+            if n > 0 {
+                if let Some(f) = pick_form(&Kind::BgRun, n as u32, st.form) {
+                    consider(n, Order::simple(Kind::BgRun, f, n as u32), &mut best);
+                }
+            }
+        }
+        if st.fg {
+            // foreground run with the current or a new foreground colour
+            let want = px[pos] ^ above(pos);
+            let mut n = 0;
+            while n < limit && (px[pos + n] ^ above(pos + n)) == want {
+                n += 1;
+            }
+            if n > 0 && want != 0 {
+                let kind = if want == fg { Kind::FgRun } else { Kind::SetFgRun };
+                if let Some(f) = pick_form(&kind, n as u32, st.form) {
+                    let mut o = Order::simple(kind, f, n as u32);
+                    o.fg = want;
+                    consider(n, o, &mut best);
+                }
+            }
+        }
+        if st.fgbg {
+            // FGBG image: every pixel is either background or background xor fg
+            let mut f2 = 0u16;
+            let mut n = 0;
+            while n < limit {
+                let d = px[pos + n] ^ above(pos + n);
+                if d != 0 {
+                    if f2 == 0 {
+                        f2 = d;
+                    } else if d != f2 {
+                        break;
+                    }
+                }
+                n += 1;
+            }
+            if n >= 4 && f2 != 0 {
+                let kind = if f2 == fg { Kind::FgBgImage } else { Kind::SetFgFgBgImage };
+                // the short form only spells multiples of 8
+                let mut nn = n;
+                let mut form = pick_form(&kind, nn as u32, st.form);
+                if form.is_none() {
+                    nn = n - n % 8;
+                    form = if nn > 0 { pick_form(&kind, nn as u32, st.form) } else { None };
+                }
+                if let Some(f) = form {
+                    let mut masks = vec![0u8; (nn + 7) / 8];
+                    for i in 0..nn {
+                        if px[pos + i] ^ above(pos + i) != 0 {
+                            masks[i / 8] |= 1 << (i % 8);
+                        }
+                    }
+                    let mut o = Order::simple(kind, f, nn as u32);
+                    o.fg = f2;
+                    o.masks = masks;
+                    // an FGBG image is less compact than a run of the same length: prefer it only when strictly longer
+                    consider(nn.saturating_sub(1), o, &mut best);
+                }
+            }
+        }
+        let free_limit = (total - pos).min(st.max_run as usize).max(1);
+        if st.color_run {
+            let mut n = 0;
+            while n < free_limit && px[pos + n] == px[pos] {
+                n += 1;
+            }
+            if n >= 2 {
+                if let Some(f) = pick_form(&Kind::ColorRun, n as u32, st.form) {
+                    let mut o = Order::simple(Kind::ColorRun, f, n as u32);
+                    o.a = px[pos];
+                    consider(n, o, &mut best);
+                }
+            }
+        }
+        if st.dithered && pos + 1 < total {
+            let (a, b) = (px[pos], px[pos + 1]);
+            let mut pairs = 0;
+            while 2 * (pairs + 1) <= free_limit && pos + 2 * pairs + 1 < total && px[pos + 2 * pairs] == a && px[pos + 2 * pairs + 1] == b {
+                pairs += 1;
+            }
+            if pairs >= 2 && a != b {
+                if let Some(f) = pick_form(&Kind::DitheredRun, pairs as u32, st.form) {
+                    let mut o = Order::simple(Kind::DitheredRun, f, pairs as u32);
+                    o.a = a;
+                    o.b = b;
+                    consider(2 * pairs, o, &mut best);
+                }
+            }
+        }
+        let (n, o) = match best {
+            Some(b) if b.0 >= 2 || !matches!(b.1.kind, Kind::FgBgImage | Kind::SetFgFgBgImage) => {
+                let cover = b.1.pixels_out() as usize;
+                (cover, b.1)
+            }
+            _ => {
+                // literal pixels up to the next position where something better may start (at most 8 here)
+                if st.special && px[pos] == 0xffff {
+                    (1, Order::simple(Kind::White, Form::Short, 1))
+                } else if st.special && px[pos] == 0 {
+                    (1, Order::simple(Kind::Black, Form::Short, 1))
+                } else {
+                    let n = free_limit.min(3);
+                    let f = pick_form(&Kind::ColorImage, n as u32, st.form).unwrap_or(Form::MegaMega);
+                    let mut o = Order::simple(Kind::ColorImage, f, n as u32);
+                    o.pixels = px[pos..pos + n].to_vec();
+                    (n, o)
+                }
+            }
+        };
+        match o.kind {
+            Kind::SetFgRun | Kind::SetFgFgBgImage => fg = o.fg,
+            _ => {}
+        }
+        last_was_bg = o.kind == Kind::BgRun;
+        out.push(o);
+        pos += n;
+    }
+    out
+}
